@@ -17,6 +17,9 @@ import (
 	"math/rand"
 	"net"
 	"os"
+	"runtime"
+	"sync"
+	"sync/atomic"
 	"time"
 
 	"github.com/IrineSistiana/mosproxy/internal/dnsmsg"
@@ -650,6 +653,7 @@ func main() {
 	ownPath := flag.String("own", "", "ownership trace (pool hook events)")
 	big := flag.Int("big", 0, "messages larger than 16 KiB with late names reused")
 	lim := flag.Int("lim", 0, "size-limited packs")
+	conc := flag.Int("conc", 0, "milliseconds of concurrent decoding / holding / re-encoding / releasing")
 	flag.Parse()
 	rng = rand.New(rand.NewSource(vtrace.Seed()))
 	tr = vtrace.Open(*out)
@@ -732,6 +736,143 @@ func main() {
 	for i := 0; i < *lim; i++ {
 		limCase(i)
 	}
+	if *conc > 0 {
+		concPhase(time.Duration(*conc) * time.Millisecond)
+	}
 	_ = dns.TypeA
 	fmt.Printf("events=%d\n", tr.N)
+}
+
+// concPhase: the codec's records and messages come from shared pools. Many goroutines decode the same images at
+// the same time; half of them release at once (feeding the pools), the others hold what they decoded for a
+// while before they look at it. Whatever a goroutine decoded has to stay what the (sequential, validated)
+// decoding of the same octets gave; a decoding that differs is recorded as an ordinary unpack event and is
+// rejected by the specification's decoder.
+func concPhase(d time.Duration) {
+	const variants = 24
+	wires := make([][]byte, 0, variants)
+	refs := make([]string, 0, variants)
+	for len(wires) < variants {
+		w := randWire(6)
+		if len(wires)%2 == 0 { // record-rich replies: many records of one type
+			e := &enc{offs: map[string]int{}}
+			ls := randNameLabels()
+			typ := []int{1, 28, 2, 5, 15, 6, 33, 12}[len(wires)/2%8]
+			nrr := 8 + rng.Intn(12)
+			e.b = append(e.b, byte(rng.Intn(256)), byte(rng.Intn(256)), 0x81, 0x80)
+			e.u16(1)
+			e.u16(nrr)
+			e.u16(0)
+			e.u16(0)
+			e.name(ls, false)
+			e.u16(typ)
+			e.u16(1)
+			for i := 0; i < nrr; i++ {
+				e.name(ls, true)
+				e.u16(typ)
+				e.u16(1)
+				e.u32(uint32(1000 + i))
+				var rd []byte
+				switch typ {
+				case 1:
+					rd = []byte{10, byte(len(wires)), byte(i), 7}
+				case 28:
+					rd = append(bytes.Repeat([]byte{0x20}, 14), byte(len(wires)), byte(i))
+				case 2, 5, 12:
+					rd = wireName(randNameLabels())
+				case 15:
+					rd = append(u16(uint16(i)), wireName(randNameLabels())...)
+				case 33:
+					rd = append(append(append(u16(uint16(i)), u16(5)...), u16(53)...), wireName(randNameLabels())...)
+				case 6:
+					rd = append(append(wireName(randNameLabels()), wireName(randNameLabels())...), bytes.Repeat([]byte{0, 0, 1, byte(i)}, 5)...)
+				}
+				e.u16(len(rd))
+				e.b = append(e.b, rd...)
+			}
+			w = e.b
+		}
+		m := doUnpack(w) // sequential reference, validated through the trace
+		if m == nil {
+			continue
+		}
+		j, _ := json.Marshal(msgAbs(m))
+		dnsmsg.ReleaseMsg(m)
+		wires = append(wires, w)
+		refs = append(refs, string(j))
+	}
+	deadline := time.Now().Add(d)
+	var bad atomic.Int64
+	var total atomic.Int64
+	report := func(v int, m *dnsmsg.Msg) {
+		if bad.Add(1) <= 5 {
+			tr.Emit("unpack", "in", vtrace.Bytes(wires[v]), "ok", true, "msg", msgAbs(m))
+		}
+	}
+	same := func(v int, m *dnsmsg.Msg) bool {
+		j, _ := json.Marshal(msgAbs(m))
+		return string(j) == refs[v]
+	}
+	var wg sync.WaitGroup
+	procs := runtime.GOMAXPROCS(0)
+	for g := 0; g < procs*2; g++ {
+		wg.Add(2)
+		go func(g int) { // decodes and releases at once
+			defer wg.Done()
+			defer func() {
+				if p := recover(); p != nil {
+					tr.Emit("crash", "what", "unpack", "in", []int{}, "panic", fmt.Sprint(p))
+				}
+			}()
+			for i := 0; bad.Load() == 0 && time.Now().Before(deadline); i++ {
+				v := (g + i) % variants
+				m, err := dnsmsg.UnpackMsg(wires[v])
+				if err != nil {
+					tr.Emit("unpack", "in", vtrace.Bytes(wires[v]), "ok", false)
+					bad.Add(1)
+					return
+				}
+				if i%32 == 0 && !same(v, m) {
+					report(v, m)
+				}
+				dnsmsg.ReleaseMsg(m)
+				total.Add(1)
+			}
+		}(g)
+		go func(g int) { // decodes, holds, looks again later, releases
+			defer wg.Done()
+			defer func() {
+				if p := recover(); p != nil {
+					tr.Emit("crash", "what", "unpack", "in", []int{}, "panic", fmt.Sprint(p))
+				}
+			}()
+			type held struct {
+				m *dnsmsg.Msg
+				v int
+			}
+			ring := make([]held, 256)
+			for i := 0; bad.Load() == 0 && time.Now().Before(deadline); i++ {
+				s := &ring[i%len(ring)]
+				if s.m != nil {
+					if !same(s.v, s.m) {
+						report(s.v, s.m)
+					}
+					if i%3 != 0 { // some are never handed back: this goroutine keeps drawing from the pools
+						dnsmsg.ReleaseMsg(s.m)
+					}
+				}
+				v := (g*7 + i) % variants
+				m, err := dnsmsg.UnpackMsg(wires[v])
+				if err != nil {
+					tr.Emit("unpack", "in", vtrace.Bytes(wires[v]), "ok", false)
+					bad.Add(1)
+					return
+				}
+				*s = held{m, v}
+				total.Add(1)
+			}
+		}(g)
+	}
+	wg.Wait()
+	fmt.Printf("concurrent decodings=%d differing=%d\n", total.Load(), bad.Load())
 }
